@@ -1,6 +1,7 @@
 package main
 
 import (
+	"strings"
 	"bufio"
 	"encoding/json"
 	"fmt"
@@ -81,6 +82,12 @@ type c03Res struct {
 	MaxWord int          `json:"maxword"`
 	Lens    []int        `json:"lens"` // Op_get_instruction_len per opcode
 	Res     []c03LineRes `json:"res"`
+	// a whole program made of accepted lines with comment and blank lines in between, assembled and disassembled in one call
+	ProgLines []string `json:"proglines"`
+	ProgText  string   `json:"progtext"`
+	ProgWords []string `json:"progwords"`
+	ProgErr   string   `json:"progerr"`
+	ProgDis   []string `json:"progdis"`
 }
 
 func asm1(m *procbuilder.Machine, line string) (word string, e string) {
@@ -154,6 +161,65 @@ func init() {
 				}
 				res.Res = append(res.Res, r)
 			}
+			func() {
+				defer func() {
+					if r := recover(); r != nil {
+						res.ProgErr = "panic"
+					}
+				}()
+				capacity := 1 << m.Arch.O
+				switch m.Arch.Modes[0] {
+				case "vn":
+					capacity = 1 << m.Arch.L
+				case "hy":
+					if m.Arch.L > m.Arch.O {
+						capacity = 1 << m.Arch.L
+					}
+				}
+				if capacity > 7 {
+					capacity = 7
+				}
+				text := ""
+				for k, r := range res.Res {
+					if len(res.ProgLines) >= capacity {
+						break
+					}
+					// spread over the request: every third accepted line
+					if r.Err != "" || k%3 != 0 || strings.HasPrefix(strings.TrimSpace(r.Line), "#") || strings.TrimSpace(r.Line) == "" {
+						continue
+					}
+					switch len(res.ProgLines) % 3 {
+					case 0:
+						text += "# a comment line\n"
+					case 1:
+						text += "\n"
+					}
+					text += r.Line + "\n"
+					res.ProgLines = append(res.ProgLines, r.Line)
+				}
+				text += "# closing comment\n"
+				res.ProgText = text
+				if len(res.ProgLines) == 0 {
+					return
+				}
+				var prog procbuilder.Program
+				var err error
+				quiet(func() { prog, err = m.Arch.Assembler([]byte(text)) })
+				if err != nil {
+					res.ProgErr = "err"
+					return
+				}
+				res.ProgWords = prog.Slocs
+				m2 := *m
+				m2.Program = prog
+				var d string
+				quiet(func() { d, err = m2.Disassembler() })
+				if err != nil {
+					res.ProgErr = "diserr"
+					return
+				}
+				res.ProgDis = strings.Split(strings.TrimRight(d, "\n"), "\n")
+			}()
 			emit(res)
 		}
 	}
